@@ -116,19 +116,22 @@ Lemma create_table_shape d x us d1 :
             name_used (t_name (x_t x)) (db_tables d) = false /\
             (x_wf x = true -> ct_wf c = true).
 Proof.
-  unfold create_table. intros H.
-  destruct (t_idx (x_t x)) eqn:Eidx; [|discriminate].
+  unfold create_table, new_ctable. intros H.
   destruct (reserved_name (t_name (x_t x))); [discriminate|].
+  destruct (table_checks x us) as [pk|] eqn:Etc; [|discriminate].
   destruct (name_used (t_name (x_t x)) (db_tables d)) eqn:Eused; [discriminate|].
-  destruct (nodup_strs (map c_name (t_cols (x_t x)))); [|discriminate]. simpl in H.
+  unfold table_checks in Etc.
+  destruct (t_idx (x_t x)) eqn:Eidx; [|discriminate].
+  destruct (nodup_strs (map c_name (t_cols (x_t x)))); [|discriminate]. simpl in Etc.
   destruct (existsb (fun c => match c_gen c with None => true | Some _ => false end) (t_cols (x_t x))) eqn:Est;
-    [|discriminate]. simpl in H.
+    [|discriminate]. simpl in Etc.
   destruct (first_err (column_def_ok (x_t x)) (t_cols (x_t x))); [|discriminate].
-  destruct (effective_pk x) as [pk|] eqn:Epk; [|discriminate].
-  match type of H with match ?P with _ => _ end = _ => destruct P as [u1|] eqn:Epkok; [|discriminate] end.
+  destruct (effective_pk x) as [pk0|] eqn:Epk; [|discriminate].
+  match type of Etc with match ?P with _ => _ end = _ => destruct P as [u1|] eqn:Epkok; [|discriminate] end.
   destruct (first_err (fk_def_ok (x_t x)) (t_fks (x_t x))) as [u2|] eqn:Efk; [|discriminate].
   destruct (first_err check_def_ok (t_checks (x_t x))); [|discriminate].
-  match type of H with (if negb ?P then _ else _) = _ => destruct P eqn:Euq; [|discriminate] end.
+  match type of Etc with (if negb ?P then _ else _) = _ => destruct P eqn:Euq; [|discriminate] end.
+  simpl in Etc. inversion Etc; subst pk0; clear Etc.
   simpl in H. inversion H; subst d1; clear H.
   eexists. split; [reflexivity|]. split; [reflexivity|]. split; [reflexivity|]. split; [reflexivity|].
   intros Hx. unfold ct_wf, ct_t, ct_x, ct_uniques, ct_rows, set_x_t, x_t, x_autoinc. simpl.
@@ -171,18 +174,19 @@ Qed.
 
 (** addTable arm: DROP TABLE undoes CREATE TABLE exactly. *)
 Lemma create_drop_table d x d1 :
-  create_table d x [] = Ok d1 ->
+  create_table d x [] = Ok d1 -> droppable d1 (t_name (x_t x)) = true ->
   drop_table d1 (t_name (x_t x)) = Ok d.
 Proof.
-  intros H. destruct (create_table_shape _ _ _ _ H) as (c & -> & Hn & Hr & Hu & _).
+  intros H Hd. destruct (create_table_shape _ _ _ _ H) as (c & -> & Hn & Hr & Hu & _).
   pose proof (name_used_false _ _ Hu) as Hfree.
   assert (Hl : forall c', In c' (db_tables d) -> str_eqb (ct_name c') (t_name (x_t x)) = false)
     by (intros c' Hc'; apply (Hfree c' Hc')).
   assert (Hc : str_eqb (ct_name c) (t_name (x_t x)) = true) by (rewrite Hn; apply str_eqb_refl).
-  unfold drop_table. cbn [db_tables set_tables db_fk].
+  unfold drop_table. unfold droppable in Hd. cbn [db_tables set_tables db_fk] in *.
   rewrite (find_ct_app_new _ _ _ Hl Hc), Hr.
   destruct (db_fk d).
-  - rewrite implicit_delete_nil, (remove_ct_app_new _ _ _ Hl Hc). now rewrite set_tables_twice, set_tables_same.
+  - simpl in Hd. apply negb_true_iff in Hd. rewrite Hd.
+    rewrite implicit_delete_nil, (remove_ct_app_new _ _ _ Hl Hc). now rewrite set_tables_twice, set_tables_same.
   - rewrite (remove_ct_app_new _ _ _ Hl Hc). now rewrite set_tables_twice, set_tables_same.
 Qed.
 
@@ -260,16 +264,17 @@ Lemma create_index_shape d n i d1 :
 Proof.
   unfold create_index. intros H.
   destruct (find_ct n (db_tables d)) as [ct|] eqn:Ef; [|discriminate].
-  destruct (i_name i) as [|b nm] eqn:En; [discriminate|].
-  destruct (reserved_name (b :: nm)); [discriminate|].
-  destruct (name_used (b :: nm) (db_tables d)) eqn:Eu; [discriminate|].
-  destruct (i_parts i) as [|p ps] eqn:Ep; [discriminate|].
-  destruct (first_err (part_ok_b (ct_t ct)) (p :: ps)) as [u|] eqn:Eok; [|discriminate].
+  destruct (index_def_ok (ct_t ct) i) as [u|] eqn:Edef; [|discriminate].
+  destruct (name_used (i_name i) (db_tables d)) eqn:Eu; [discriminate|].
   match type of H with (if ?D then _ else _) = _ => destruct D; [discriminate|] end.
   inversion H; subst d1; clear H.
   exists ct. repeat split; try reflexivity.
+  unfold index_def_ok in Edef.
+  destruct (i_name i) as [|b nm]; [discriminate|].
+  destruct (reserved_name (b :: nm)); [discriminate|].
+  destruct (i_parts i) as [|p ps] eqn:Ep; [discriminate|].
   unfold parts_in. apply forallb_forall. intros q Hq.
-  pose proof (first_err_ok _ _ (first_err_unit _ _ _ Eok) q Hq) as Hp. unfold part_ok_b in Hp.
+  pose proof (first_err_ok _ _ (first_err_unit _ _ _ Edef) q Hq) as Hp. unfold part_ok_b in Hp.
   destruct (p_col q); [|reflexivity].
   destruct (has_col (ct_t ct) s); [reflexivity|discriminate].
 Qed.
@@ -616,15 +621,16 @@ Qed.
 Lemma additive_step pc d d1 :
   additive pc = true -> stmt_wf (pc_cmd pc) = true -> db_wf d = true ->
   exec d (pc_cmd pc) = Ok d1 ->
+  match pc_cmd pc with SCreateTable x _ => droppable d1 (t_name (x_t x)) = true | _ => True end ->
   exec_all d1 (pc_reverse pc) = Ok d /\ db_wf d1 = true.
 Proof.
-  unfold additive. intros A SW W E.
+  unfold additive. intros A SW W E DR.
   destruct (pc_cmd pc) as [x us|n|a b|t c ai|t c|t a b|t i|n|tt tc ft fe|on] eqn:Ec; try discriminate.
   - (* CREATE TABLE *)
     destruct us; [|discriminate].
     destruct (pc_reverse pc) as [|[| n | | | | | | | |] [|]] eqn:Er; try discriminate.
     apply str_eqb_eq in A. subst n. simpl in E. split.
-    + simpl. now rewrite (create_drop_table _ _ _ E).
+    + simpl. now rewrite (create_drop_table _ _ _ E DR).
     + destruct (create_table_shape _ _ _ _ E) as (c & -> & _ & _ & _ & Hw).
       apply db_wf_app; [exact W|apply Hw; exact SW].
   - (* ADD COLUMN *)
@@ -651,19 +657,41 @@ Qed.
 
 (** * the additive arms, whole lists: up then down is the identity on engine states *)
 Theorem additive_sound l : forall d d1,
-  db_wf d = true ->
+  db_wf d = true -> droppable_along d l ->
   forallb additive l = true -> forallb (fun pc => stmt_wf (pc_cmd pc)) l = true ->
   exec_all d (up_stmts l) = Ok d1 ->
   exec_all d1 (down_stmts l) = Ok d.
 Proof.
-  induction l as [|pc l IH]; intros d d1 W A SW E.
+  induction l as [|pc l IH]; intros d d1 W DA A SW E.
   - simpl in *. congruence.
-  - simpl in A, SW, E.
+  - simpl in A, SW, E, DA.
     apply andb_true_iff in A as [A1 A2]. apply andb_true_iff in SW as [S1 S2].
     destruct (exec d (pc_cmd pc)) as [dm|] eqn:Em; [|discriminate].
-    destruct (additive_step _ _ _ A1 S1 W Em) as [Hrev Wm].
+    destruct (DA dm eq_refl) as [DR DA'].
+    destruct (additive_step _ _ _ A1 S1 W Em DR) as [Hrev Wm].
     unfold down_stmts. simpl. rewrite flat_map_app. simpl. rewrite app_nil_r.
-    rewrite exec_all_app. fold (down_stmts l). rewrite (IH dm d1 Wm A2 S2 E). exact Hrev.
+    rewrite exec_all_app. fold (down_stmts l). rewrite (IH dm d1 Wm DA' A2 S2 E). exact Hrev.
+Qed.
+
+(** with foreign-key enforcement off, every created table stays droppable *)
+Lemma additive_keeps_fk pc d dm :
+  additive pc = true -> exec d (pc_cmd pc) = Ok dm -> db_fk dm = db_fk d.
+Proof.
+  unfold additive. intros A E.
+  destruct (pc_cmd pc) as [x us|n|a b|t c ai|t c|t a b|t i|n|tt tc ft fe|on] eqn:Ec; try discriminate; simpl in E.
+  - destruct (create_table_shape _ _ _ _ E) as (c & -> & _). reflexivity.
+  - destruct (add_column_shape _ _ _ _ _ E) as (ct & vo & _ & _ & ->). reflexivity.
+  - destruct (create_index_shape _ _ _ _ E) as (ct & _ & _ & _ & ->). reflexivity.
+Qed.
+
+Lemma droppable_along_fk_off l : forall d,
+  db_fk d = false -> forallb additive l = true -> droppable_along d l.
+Proof.
+  induction l as [|pc l IH]; intros d F A; simpl; [exact I|].
+  simpl in A. apply andb_true_iff in A as [A1 A2]. intros dm E.
+  pose proof (additive_keeps_fk _ _ _ A1 E) as Ef. rewrite F in Ef. split.
+  - destruct (pc_cmd pc); try exact I. unfold droppable. now rewrite Ef.
+  - now apply IH.
 Qed.
 
 (** * the planner: what a reversible plan without drops consists of *)
@@ -834,11 +862,23 @@ Qed.
 Theorem reversible_sound_additive from to cs p d d1 :
   db_wf d = true -> xschema_wf to = true -> no_drops cs = true ->
   PlanChanges from to cs = Some p -> p_reversible p = true ->
+  droppable_along d (p_changes p) ->
   exec_all d (up_stmts (p_changes p)) = Ok d1 ->
   exec_all d1 (down_stmts (p_changes p)) = Ok d.
 Proof.
-  intros W XW ND HP R E. destruct (plan_additive _ _ _ _ XW ND HP R) as [A S].
-  exact (additive_sound _ _ _ W A S E).
+  intros W XW ND HP R DA E. destruct (plan_additive _ _ _ _ XW ND HP R) as [A S].
+  exact (additive_sound _ _ _ W DA A S E).
+Qed.
+
+Corollary reversible_sound_additive_fk_off from to cs p d d1 :
+  db_wf d = true -> xschema_wf to = true -> no_drops cs = true ->
+  PlanChanges from to cs = Some p -> p_reversible p = true ->
+  db_fk d = false ->
+  exec_all d (up_stmts (p_changes p)) = Ok d1 ->
+  exec_all d1 (down_stmts (p_changes p)) = Ok d.
+Proof.
+  intros W XW ND HP R F E. destruct (plan_additive _ _ _ _ XW ND HP R) as [A S].
+  exact (additive_sound _ _ _ W (droppable_along_fk_off _ _ F A) A S E).
 Qed.
 
 (** * the flag of the SQLite planner *)
